@@ -229,6 +229,15 @@ def pdhg_instances(ctx):
         else:
             inst["x0"] = inst["u0"] = [Fr(0)] * n
         out.append(inst)
+    # curated instances of the early-stop clause: from a zero start one block of the state does not move while the other does
+    #  - tv family: the clipping dual prox keeps u = 0 while the primal moves (every theta, in particular theta = 0)
+    #  - ls family with l1: the soft threshold keeps x = 0 while the dual moves
+    for th in (Fr(0), Fr(1, 2), Fr(1)):
+        for fam, g, a_, y_, lam_, tau_ in (("tv", "zero", [Fr(1)], [Fr(2)], Fr(1), Fr(1, 2)), ("tv", "zero", [Fr(1), Fr(-1)], [Fr(2), Fr(-3)], Fr(3), Fr(1)),
+                                          ("ls", "l1", [Fr(1)], [Fr(1)], Fr(3), Fr(1, 2)), ("ls", "l1", [Fr(-1), Fr(1)], [Fr(1), Fr(-1)], Fr(3), Fr(1, 2))):
+            nn_ = len(a_)
+            out.append({"id": len(out) + 1, "fam": fam, "theta": th, "cap": 3, "a": a_, "y": y_, "g": g, "lam": lam_, "lo": Fr(-1, 2), "hi": Fr(1),
+                        "tau": [tau_] * nn_, "sigma": [Fr(1)] * nn_, "start": "zero", "arr": False, "x0": [Fr(0)] * nn_, "u0": [Fr(0)] * nn_})
     return out
 
 
